@@ -57,6 +57,8 @@ func CreateWhen(m ExportedMocker, funcDef interface{}, args []interface{},
 	}
 
 	defaultMatch = curMatch
+	// 默认返回值不是"当前条件": 否则之后再次 Return(...) 会把默认返回值当作第一个条件注册, 使后续的 When 条件永远匹配不到
+	curMatch = nil
 	if args != nil {
 		curMatch = newDefaultMatch(args, nil, isMethod, impTyp)
 	}
